@@ -40,14 +40,14 @@ theorem IdSorted.take_closed {l : List Id} (hs : IdSorted l) (n : Nat) {x y : Id
     | zero => simp at hy
     | succ n =>
       simp only [List.take_succ_cons, List.mem_cons] at hy ⊢
-      rcases List.mem_cons.mp hx with hx | hx
-      · exact Or.inl hx
+      rcases List.mem_cons.mp hx with hx' | hx'
+      · exact Or.inl hx'
       · right
-        rcases hy with hy | hy
-        · subst hy
-          have := idLt_of_lt_of_le (hs.1 x hx) hxy
+        rcases hy with hy' | hy'
+        · rw [hy'] at hxy
+          have := idLt_of_lt_of_le (hs.1 x hx') hxy
           rw [idLt_irrefl] at this; cases this
-        · exact ih hs.2 n hx hy
+        · exact ih hs.2 n hx' hy'
 
 theorem rangeAfter_eq_take (s : List Id) (a : Id) (count : Option Nat) :
     ∃ k, rangeAfter s a count = (s.filter (fun x => idLt a x)).take k := by
@@ -74,7 +74,7 @@ theorem rangeAfter_closed {s : List Id} (hs : IdSorted s) (a : Id) (count : Opti
     x ∈ rangeAfter s a count := by
   obtain ⟨k, hk⟩ := rangeAfter_eq_take s a count
   rw [hk] at hy ⊢
-  exact (hs.filter _).take_closed k (by simp [hx, hax]) hy hxy
+  exact IdSorted.take_closed (hs.filter _) k (by simp [hx, hax]) hy hxy
 
 /-- an unbounded read returns everything after the cursor -/
 theorem rangeAfter_none (s : List Id) (a : Id) : rangeAfter s a none = s.filter (fun x => idLt a x) := rfl
@@ -103,19 +103,15 @@ def HOp.noSetId : HOp → Bool
   | _ => true
 
 theorem onceInv_init {s : List Id} {lastId : Id} (start : Id) (hs : IdSorted s)
-    (hb : ∀ x ∈ s, idLe x lastId = true) (hstart : ∀ x ∈ s, idLt start x = false) :
-    OnceInv start (Spec.init s lastId start) := by
+    (hb : ∀ x ∈ s, idLe x lastId = true) : OnceInv start (Spec.init s lastId start) := by
   refine { sorted := hs, below := hb, logSorted := List.Pairwise.nil, logAfter := ?_, logBelowCur := ?_,
            logBelowLast := ?_, curOrigin := Or.inl rfl, noSkip := ?_ }
   · intro d hd; cases hd
   · intro d hd; cases hd
   · intro d hd; cases hd
-  · intro x hx h1; rw [hstart x hx] at h1; cases h1
-
-/-- the same, for a group created at any position of a non-empty history: entries already below the start never count -/
-theorem onceInv_init' {s : List Id} {lastId : Id} (start : Id) (hs : IdSorted s)
-    (hb : ∀ x ∈ s, idLe x lastId = true) :
-    OnceInv start { Spec.init s lastId start with stream := s } ∨ True := Or.inr trivial
+  · intro x _ h1 h2
+    have : idLt start start = true := idLt_of_lt_of_le h1 h2
+    rw [idLt_irrefl] at this; cases this
 
 theorem onceInv_read {start : Id} {σ : Spec.Sys} (h : OnceInv start σ) (c : Name) (count : Option Nat) (noack : Bool) :
     OnceInv start
@@ -248,10 +244,10 @@ theorem onceInv_hstep {start : Id} {σ : Spec.Sys} (h : OnceInv start σ) (op : 
             have := idLt_of_lt_of_le hlt (idLe_trans hxc (h.logBelowLast d hd))
             rw [idLt_irrefl] at this; cases this
   | del ids =>
-    exact { sorted := h.sorted.filter _, below := fun x hx => h.below x (List.mem_of_mem_filter hx),
+    exact { sorted := h.sorted.filter _, below := fun x hx => h.below x (List.mem_filter.mp hx).1,
             logSorted := h.logSorted, logAfter := h.logAfter, logBelowCur := h.logBelowCur,
             logBelowLast := h.logBelowLast, curOrigin := h.curOrigin,
-            noSkip := fun x hx => h.noSkip x (List.mem_of_mem_filter hx) }
+            noSkip := fun x hx => h.noSkip x (List.mem_filter.mp hx).1 }
   | g op =>
     cases op with
     | setid id => cases hop
@@ -302,12 +298,12 @@ theorem addPending_last (g : Group) (c : Name) (ids : List Id) :
   have hl : (ids.foldl (Code.addEntry c) (Code.createConsumer g c)).lastDelivered = g.lastDelivered := by
     rw [foldl_addEntry_last]; rfl
   cases ids.getLast? with
-  | none => exact hl
+  | none => first | rfl | exact hl
   | some l =>
     simp only [hl]
     split
     · rfl
-    · exact hl
+    · first | rfl | exact hl
 
 theorem ackLoop_last (g : Group) (ids : List Id) (n : Nat) :
     (Code.ackLoop g ids n).1.lastDelivered = g.lastDelivered := by
